@@ -756,6 +756,16 @@ func c09Prefilled(c *rt.Ctx) {
 			return made{&x, []unsafe.Pointer{unsafe.Pointer(v)}, func() []any { return []any{x} }}
 		},
 		func() made {
+			// only the pointer member is set (the interface is nil and takes any value)
+			h := &holder{X: 4, P: &in{A: 1, S: "p"}, Z: "old"}
+			return made{h, []unsafe.Pointer{nil, unsafe.Pointer(h.P)}, func() []any { return []any{h.I, h.P} }}
+		},
+		func() made {
+			// the Decode target itself is a set pointer
+			hp := &holder{X: 5, P: &in{A: 2}, Z: "kept"}
+			return made{&hp, []unsafe.Pointer{unsafe.Pointer(hp), unsafe.Pointer(hp.P)}, func() []any { return []any{hp, hp.P} }}
+		},
+		func() made {
 			v := &in{A: 9}
 			l := []any{v, nil, "s"}
 			return made{&l, []unsafe.Pointer{unsafe.Pointer(v)}, func() []any {
@@ -793,6 +803,8 @@ func c09Prefilled(c *rt.Ctx) {
 				switch {
 				case mi <= 2:
 					doc = `{"X":1,"I":` + ws + val + ws + `,"P":` + ws + val + `,"L":[{"A":9}],"Z":"z"}`
+				case mi == 4 || mi == 5:
+					doc = `{"I":` + ws + val + ws + `,"P":` + ws + val + `,"L":[{"A":9}]}`
 				case mi == 3:
 					doc = ws + val + ws
 				default:
